@@ -15,7 +15,7 @@ NOTE = ("Sampling, not proof: holds on the schedules explored. Trusted base: the
 # id -> (level, design_ref, text, extra technique)
 P = {
  "C01": ("exploration", "§6 C01", "After every block (most generated blocks carry one message) the balance of each auction's three escrow addresses is compared, in every denomination, with what the implementation's own stored records owe (offered amount / sum of required reservations of stored bids / unreleased instalments) plus exactly the third-party deposits the simulator made and the module has not swept; per-message transfers are compared with the model. Histories include rounding-prone prices, modifications, both fixed-price denominations, foreign deposits into all escrows, crash re-execution.", ""),
- "C02": ("exploration", "§6 C02", "Per block: zero-sum of all participant/escrow balance changes plus recorded community-pool fundings, per denomination; per message: ordered transfer list equals the model's (fee in force, own reservation only, debits only from the signer); histories end with a drain phase so that every auction reaches finished/cancelled and final entitlements are compared with the model.", ""),
+ "C02": ("exploration", "§6 C02", "Per block: zero-sum of all participant/escrow balance changes plus recorded community-pool fundings, per denomination; per message: the net effect of its transfers per address and denomination equals the model's (fee in force, own reservation only, debits only from the signer); histories end with a drain phase so that every auction reaches finished/cancelled and final entitlements are compared with the model.", ""),
  "C03": ("exploration", "§6 C03", "At every end time of every generated batch order book the settlement transfers are compared with the model's linear scan from the lowest bid price (capped demand per bidder, exact integer arithmetic); order books come from real message histories with dust bids, duplicate prices, caps changed between rounds.", ""),
  "C04": ("exploration", "§6 C04", "Payments (reservation minus refund) per bidder at settlement are compared with the model (uniform clearing price, ceil per matched bid) and fixed-price reservations with exact ceil/floor; awkward 18-decimal prices and tiny amounts are the default scale.", ""),
  "C05": ("exploration", "§6 C05", "From the recorded settlement transfers: total distributed <= offered, per bidder <= allow-list cap (at acceptance for each fixed-price bid, at settlement for batch) and <= requested; caps are raised/lowered between bids and rounds.", ""),
